@@ -494,6 +494,7 @@ func runReplayFile(verifDir, path string) int {
 		fmt.Println("bad replay file:", err)
 		return 2
 	}
+	replayRace = rf.Harness.Race
 	rr, raw, err := nativeReplay(verifDir, rf.Harness.Pkg, []replayCase{{ID: "replay", Harness: rf.Harness.Name, Vars: rf.Vars, Params: rf.Harness.Params}})
 	if err != nil {
 		fmt.Println("replay failed to run:", err)
@@ -506,7 +507,7 @@ func runReplayFile(verifDir, path string) int {
 		return 2
 	}
 	fmt.Printf("replay of %s: failed assertions=%v panic=%q\n", filepath.Base(path), ro.Failed, ro.Panicked)
-	if (rf.Kind == "panic" && ro.Panicked != "") || contains(ro.Failed, rf.Obligation) || (ro.OOM && strings.HasPrefix(rf.Obligation, "c06-")) {
+	if (rf.Kind == "panic" && ro.Panicked != "") || contains(ro.Failed, rf.Obligation) || (ro.OOM && strings.HasPrefix(rf.Obligation, "c06-")) || (ro.Race && strings.HasPrefix(rf.Obligation, "c17-")) {
 		fmt.Printf("VIOLATION property=%s replay=%s\n", rf.Property, path)
 		return 1
 	}
